@@ -18,7 +18,7 @@ def run(tier, seed):
     e2e_common.report_rules(v, PROP, res['trace_rules'])
     # outside the grid: one connection with one stream and files above the scheduler's small-file threshold,
     # many chunks / many files over many workers, large chunk sizes
-    sp = vlib.run_vh_sharded(['xfer-special', '-seed', str(seed), '-groups', 'onestream,manychunks,manyfiles,geometry,symlink,longlag,lateinfo,multiselect,large'], 8, timeout=1800)
+    sp = vlib.run_vh_sharded(['xfer-special', '-seed', str(seed), '-groups', 'onestream,manychunks,manyfiles,geometry,symlink,longlag,lateinfo,multiselect,large,resend'], 8, timeout=1800)
     # prior histories an interrupted transfer leaves behind (plain, highest chunk torn, complete file with a torn
     # last chunk) resumed with duplicates (verification tail, repair) over data streams that lag behind the
     # control stream: the late chunks must not make the transfer fail
